@@ -100,8 +100,11 @@ def install(ctx):
 
     def post_mul(name):
         def post(st, args, kwargs, result):
-            a = list(args[1] if len(args) > 1 else kwargs['input_labels_a'])
-            b = list(args[2] if len(args) > 2 else kwargs['input_labels_b'])
+            a = A.operand_list(args[1] if len(args) > 1 else kwargs['input_labels_a'], 0)
+            b = A.operand_list(args[2] if len(args) > 2 else kwargs['input_labels_b'], 1)
+            if a is None or b is None:
+                ctx.mon(name, 'skipped_one_shot_iterable')
+                return
             be = kwargs.get('big_endian', False)
             n, m = len(a), len(b)
             L = len(result)
@@ -115,7 +118,10 @@ def install(ctx):
 
     def post_square(name):
         def post(st, args, kwargs, result):
-            a = list(args[1] if len(args) > 1 else kwargs['input_labels'])
+            a = A.operand_list(args[1] if len(args) > 1 else kwargs['input_labels'], 0)
+            if a is None:
+                ctx.mon(name, 'skipped_one_shot_iterable')
+                return
             be = kwargs.get('big_endian', False)
             n = len(a)
             A.check_call(name, st, args[0], [A.le(a, be)], [A.le(result, be)], lambda x: (x * x,),
@@ -166,6 +172,8 @@ def run_item(item, ctx, host_case=None):
     if host_case:
         case.update(host_case)
     A.CUR['case'] = case
+    A.CUR['intended_operands'] = None
+    _frng = random.Random(repr(item) + repr((host_case or {}).get('rseed')))
     if be:
         ctx.count('endian:big')
     if m is not None and n != m:
@@ -195,7 +203,8 @@ def run_item(item, ctx, host_case=None):
             with monitor.suspended():
                 c = netgen.build(host)
             ctx.count('host:' + host_case['mode'])
-            getattr(ar, what)(c, host_case['operands'][0], big_endian=be)
+            A.CUR['intended_operands'] = [list(host_case['operands'][0])]
+            getattr(ar, what)(c, A.flavour(_frng, host_case['operands'][0], ctx), big_endian=be)
         else:
             if host_case:
                 host = netgen.from_description(host_case['host'])
@@ -210,7 +219,11 @@ def run_item(item, ctx, host_case=None):
                 a, b = list(c.inputs[:n]), list(c.inputs[n:])
             if what == 'add_mul_karatsuba' and (max(n, m) >= 20 or max(n, m) == 18):
                 ctx.count('reach:karatsuba_recursive')
-            getattr(ar, what)(c, a, b, big_endian=be)
+            A.CUR['intended_operands'] = [list(a), list(b)]
+            if host_case and host_case.get('same_list_object'):
+                getattr(ar, what)(c, a, b, big_endian=be)
+            else:
+                getattr(ar, what)(c, A.flavour(_frng, a, ctx), A.flavour(_frng, b, ctx), big_endian=be)
     except Exception as e:
         ctx.unexpected(str(what), e, case)
     ctx.case('%s|%s|%s|%s|%s' % (what, n, m, be, host_case and host_case['mode']), (m is None and n >= 2) or (m is not None and n >= 2 and m >= 2),
